@@ -33,6 +33,8 @@ def main():
         import check_c09 as m
     elif pid == "C11":
         import check_c11 as m
+    elif pid == "C15":
+        import check_c15 as m
     elif pid == "C17":
         import check_c17 as m
     else:
